@@ -100,7 +100,7 @@ func pubsubConc(seed int64, rounds int, want map[string]bool, enc *json.Encoder)
 		rep := concReport{Scenario: "pubsub", Seed: seed + int64(r), Goroutines: 3 + 4 + 2, Shards: 1024}
 		config.Configures.ShardNum = 1024
 		mgr := server.NewManager(config.Configures)
-		psBegin(mgr.CurrentDB)
+		psBegin(mgr.CurrentDB, true)
 		ctx, cancel := context.WithCancel(context.Background())
 		const nsub, npub, nmsg = 3, 4, 25
 		subs := make([]*sconn, nsub)
@@ -272,6 +272,9 @@ const psTraceRounds = 1000
 func psFinish(rep *concReport, control bool) {
 	n, why := psEnd()
 	rep.TraceEvents = n
+	if tr := psTraces(); len(tr) > 0 {
+		rep.Traces = tr
+	}
 	if rep.Result == "stuck" {
 		return // wedged goroutines hold locks: the trace cannot be quiescent, the watchdog's report stands
 	}
@@ -300,7 +303,7 @@ func pubsubHandover(seed int64, rounds int, want map[string]bool, enc *json.Enco
 		rep := concReport{Scenario: "pubsub-handover", Seed: seed + int64(r), Goroutines: 3, Shards: 1024}
 		config.Configures.ShardNum = 1024
 		mgr := server.NewManager(config.Configures)
-		psBegin(mgr.CurrentDB)
+		psBegin(mgr.CurrentDB, false)
 		ctx, cancel := context.WithCancel(context.Background())
 		pub := newSconn(ctx, mgr)
 		rng := rand.New(rand.NewSource(seed + int64(r)))
@@ -432,7 +435,7 @@ func pubsubPrune(seed int64, rounds int, want map[string]bool, enc *json.Encoder
 		rep := concReport{Scenario: "pubsub-prune", Seed: seed + int64(r), Goroutines: 16, Shards: 1024}
 		config.Configures.ShardNum = 1024
 		mgr := server.NewManager(config.Configures)
-		psBegin(mgr.CurrentDB)
+		psBegin(mgr.CurrentDB, false)
 		tab := mgr.CurrentDB.SubChans
 		const workers, perWorker = 8, 2500
 		var bad atomic.Value
@@ -539,7 +542,7 @@ func pubsubPaths(seed int64, want map[string]bool, enc *json.Encoder) {
 	rep := concReport{Scenario: "pubsub-paths", Seed: seed, Goroutines: 1, Shards: 1024}
 	config.Configures.ShardNum = 1024
 	mgr := server.NewManager(config.Configures)
-	psBegin(mgr.CurrentDB)
+	psBegin(mgr.CurrentDB, true)
 	tab := mgr.CurrentDB.SubChans
 	ca, sa := net.Pipe()
 	cb, sb := net.Pipe()
